@@ -1,11 +1,15 @@
 import ZI.Components
+import ZI.Props.C05Reg
 /-! # C16 — Components listings, lookups and events stay mutually consistent
 
 Model: `ZI.Components` (the eight register/unregister methods on top of the adapter-registry model, the
 `{provided: {component: count}}` cache with its switch to the non-hashing counter, the four listings, events, the probe).
 Proved here: what each call returns, which events it emits and what it does to the listings (the bookkeeping the
 statement spells out).  That the *registries* underneath then answer as registries populated from the listings would
-(C16_queries, C16_probe) is evaluated by the oracle after every call and compared with the model; it is not yet a theorem. -/
+(C16_queries, C16_probe) is evaluated by the oracle after every call and compared with the model; it is not yet a theorem.
+The counter cache is volatile: a picklable `Components` that is stored and re-loaded (`reload`) rebuilds it from the
+utility listing.  Proved: the re-load leaves the four listings alone and the rebuilt counter holds, per
+`(provided, component under ==)`, the number of listing entries (one per *name*) — `C16_counts` right after a re-load. -/
 namespace ZI.Components
 open ZI.Registry
 
@@ -145,6 +149,114 @@ theorem C16_subscriptions (s : Comp) (f : C) (g : Option C) (req : List Id) (p :
       simp only [hl, Bool.false_eq_true, if_false]
       exact ⟨trivial, by simp [Ev.str], by simpa using hl⟩
 
+/-! ### storing and re-loading a picklable `Components`: the volatile counter cache is rebuilt from the listing -/
+/-- **a re-load keeps the four listings** -/
+theorem reload_listings (s : Comp) :
+    (reload s).utilRegs = s.utilRegs ∧ (reload s).adapterRegs = s.adapterRegs ∧
+    (reload s).subRegs = s.subRegs ∧ (reload s).handlerRegs = s.handlerRegs := ⟨rfl, rfl, rfl, rfl⟩
+
+theorem C.eq_iff (a b : C) : a.eq b = true ↔ a.v.eqc = b.v.eqc := by simp [C.eq]
+
+theorem count_nil (d : C) : count [] d = 0 := rfl
+
+theorem count_cons (x : C × Nat) (l : List (C × Nat)) (d : C) :
+    count (x :: l) d = if x.1.eq d then x.2 else count l d := by
+  unfold count
+  rw [List.find?_cons]
+  cases h : x.1.eq d <;> simp
+
+theorem count_map_set (l : List (C × Nat)) (c d : C) (n : Nat) :
+    count (l.map fun p => if p.1.eq c then (p.1, n) else p) d =
+      if c.eq d then (if l.any (fun p => p.1.eq c) then n else 0) else count l d := by
+  induction l with
+  | nil => simp [count_nil]
+  | cons x l ih =>
+    rw [List.map_cons, count_cons, count_cons, ih, List.any_cons]
+    by_cases hx : x.1.eq c = true <;> by_cases hd : x.1.eq d = true <;> by_cases hcd : c.eq d = true <;>
+      simp only [hx, hd, hcd, if_true, Bool.true_or, Bool.false_or, Bool.false_eq_true, if_false] <;>
+      (exfalso; rw [C.eq_iff] at *; omega)
+
+theorem count_append_new (l : List (C × Nat)) (c d : C) (n : Nat) (h : l.any (fun p => p.1.eq c) = false) :
+    count (l ++ [(c, n)]) d = if c.eq d then n else count l d := by
+  induction l with
+  | nil => simp [count_cons, count_nil]
+  | cons x l ih =>
+    rw [List.any_cons, Bool.or_eq_false_iff] at h
+    rw [List.cons_append, count_cons, count_cons, ih h.2]
+    have hx := h.1
+    by_cases hd : x.1.eq d = true <;> by_cases hcd : c.eq d = true <;> simp only [hd, hcd, if_true, Bool.false_eq_true, if_false]
+    exfalso
+    have : x.1.eq c = true := by rw [C.eq_iff] at *; omega
+    simp [this] at hx
+
+theorem count_setCount (cache : List (C × Nat)) (c d : C) (n : Nat) :
+    count (setCount cache c n) d = if c.eq d then n else count cache d := by
+  unfold setCount
+  split
+  · rename_i hany
+    rw [count_map_set, hany]; simp
+  · rename_i hany
+    exact count_append_new cache c d n (by simpa using hany)
+
+theorem aget?_set_nat {α : Type} (m : AList Id α) (k k' : Id) (v : α) :
+    AList.get? (AList.set m k v) k' = if k = k' then some v else AList.get? m k' := by
+  by_cases hk : k = k'
+  · subst hk; simp [aget?_set_same]
+  · rw [aget?_set_ne m (fun e => hk e.symm)]; simp [hk]
+
+/-- the count the cache holds for `(provided, component)` (components under `==`) -/
+def countOf (uc : AList Id (List (C × Nat) × Bool)) (p : Id) (c : C) : Nat :=
+  count ((AList.get? uc p).getD ([], false)).1 c
+
+theorem countOf_cacheUtility (uc : AList Id (List (C × Nat) × Bool)) (p q : Id) (c d : C) :
+    countOf (cacheUtility uc p c) q d = countOf uc q d + (if p = q ∧ c.eq d = true then 1 else 0) := by
+  unfold countOf cacheUtility
+  simp only
+  rw [aget?_set_nat]
+  by_cases hpq : p = q
+  · subst hpq
+    simp only [if_true, Option.getD_some, count_setCount, true_and]
+    by_cases hcd : c.eq d = true
+    · have : count ((AList.get? uc p).getD ([], false)).1 c = count ((AList.get? uc p).getD ([], false)).1 d := by
+        unfold count
+        have : (fun (x : C × Nat) => x.1.eq c) = (fun x => x.1.eq d) := by
+          funext x; rw [Bool.eq_iff_iff, C.eq_iff, C.eq_iff]; rw [C.eq_iff] at hcd; omega
+        rw [this]
+      simp [hcd, this]
+    · simp [hcd]
+  · simp [hpq]
+
+/-- listing entries for `provided` whose component is `==` the given one -/
+def listed (regs : AList (Id × String) (C × String)) (p : Id) (c : C) : Nat :=
+  (regs.filter fun e => e.1.1 == p && e.2.1.eq c).length
+
+theorem populate_fold (regs : AList (Id × String) (C × String)) (uc : AList Id (List (C × Nat) × Bool)) (q : Id) (d : C) :
+    countOf (regs.foldl (fun uc e => cacheUtility uc e.1.1 e.2.1) uc) q d = countOf uc q d + listed regs q d := by
+  induction regs generalizing uc with
+  | nil => simp [listed]
+  | cons e l ih =>
+    rw [List.foldl_cons, ih, countOf_cacheUtility]
+    unfold listed
+    rw [List.filter_cons]
+    by_cases h : e.1.1 = q ∧ e.2.1.eq d = true
+    · simp [h]; omega
+    · have : (e.1.1 == q && e.2.1.eq d) = false := by
+        rw [Bool.and_eq_false_iff]
+        by_cases h1 : e.1.1 = q
+        · right; simpa [h1] using h
+        · left; simpa using h1
+      simp [h, this]
+
+/-- **C16_counts across a re-load**: the rebuilt counter holds, for every `(provided, component)`, exactly the number of
+listing entries for that interface whose component is `==` it — once per *name*, not once per pair -/
+theorem populateCache_counts (regs : AList (Id × String) (C × String)) (q : Id) (d : C) :
+    countOf (populateCache regs) q d = listed regs q d := by
+  unfold populateCache
+  rw [populate_fold]
+  simp [countOf, AList.get?, count_nil]
+
+theorem reload_counts (s : Comp) (q : Id) (d : C) : countOf (reload s).ucache q d = listed (reload s).utilRegs q d :=
+  populateCache_counts s.utilRegs q d
 /-- the pinned `unregisterUtility` addressed the counter cache with the component passed in: an unhashable component equal
 to the registered hashable one raised TypeError after the listing entry was already removed; the repaired one does not -/
 def w16 : Comp :=
